@@ -33,9 +33,9 @@ def find_func(prog, name):
 def tier_params(tier):
     if tier == "thorough":
         return {"query_ms": 120000, "func_budget_s": 900, "feas_ms": 20000, "explore_s": 300,
-                "reach_ms": 20000, "max_boundary": 40}
-    return {"query_ms": 12000, "func_budget_s": 60, "feas_ms": 3000, "explore_s": 40,
-            "reach_ms": 4000, "max_boundary": 6}
+                "reach_ms": 20000, "max_boundary": 40, "max_depth": 10}
+    return {"query_ms": 12000, "func_budget_s": 60, "feas_ms": 3000, "explore_s": 25,
+            "reach_ms": 4000, "max_boundary": 6, "max_depth": 5}
 
 
 def base_out(fname, f):
@@ -64,12 +64,15 @@ class wrap:
 
 def explore(prog, f, honest, tp, out):
     fa = FuncAnalysis(prog, f, honest=honest,
-                      limits=Limits(solver_ms=tp["feas_ms"], explore_s=tp["explore_s"])).explore()
+                      limits=Limits(solver_ms=tp["feas_ms"], explore_s=tp["explore_s"],
+                                    max_depth=tp["max_depth"])).explore()
     if fa.unsupported:
         out["status"] = "outside"
         out["reason"] = fa.unsupported
         return None
     out["paths"], out["steps"] = fa.stats["paths"], fa.stats["steps"]
+    if fa.stats.get("cut_paths"):
+        out["cut_paths"] = fa.stats["cut_paths"]
     return fa
 
 
@@ -162,6 +165,9 @@ def _c02(dump_path, fname, tier):
             qn = f"{fname}:case{case.idx}:path{pi}"
             if time.time() - t0 > tp["func_budget_s"]:
                 out["undecided"].append(qn + ":budget")
+                continue
+            if r.status.startswith("cut:"):
+                out["cut_paths"] = out.get("cut_paths", 0) + 1
                 continue
             if not r.ok:
                 # definite failure edge at the end of this path: must be unreachable
@@ -549,8 +555,9 @@ def _c03(dump_path, fname, tier):
     out = {"name": fname, "func": f["name"], "status": "ok", "queries": 0, "discharged": 0,
            "undecided": [], "candidates": [], "paths": 0, "steps": 0, "witnesses": [],
            "pins": 0, "methods": {}}
-    fa = FuncAnalysis(prog, f, honest=False, limits=Limits(solver_ms=tp["feas_ms"],
-                                                            explore_s=tp["explore_s"])).explore()
+    fa = FuncAnalysis(prog, f, honest=False,
+                      limits=Limits(solver_ms=tp["feas_ms"], explore_s=tp["explore_s"],
+                                    max_depth=tp["max_depth"])).explore()
     if fa.unsupported:
         out["status"] = "outside"
         out["reason"] = fa.unsupported
